@@ -9,6 +9,7 @@ import (
 	"io"
 	"net"
 	"reflect"
+	"regexp"
 	"sort"
 	"strconv"
 	"strings"
@@ -95,7 +96,7 @@ func (e *LibEnd) Send(b []byte) error {
 	cp := append([]byte(nil), b...)
 	p.Out = append(p.Out, cp)
 	if !p.opts.Quiet {
-		vs.Note("out", p.opts.Name, string(cp))
+		vs.Note("out", p.opts.Name, normalizeVolatile(string(cp)))
 	}
 	if p.opts.Faults && vs.Choose(2, "fault:send") == 1 {
 		p.FaultsDone = append(p.FaultsDone, fmt.Sprintf("send#%d", p.NSend))
@@ -238,6 +239,22 @@ func (e *PeerEnd) TryRecv() ([]byte, bool) {
 func (e *PeerEnd) Close() {
 	vs.Yield("peer close")
 	e.p.c2s.closed = true
+}
+
+var (
+	reMetrics   = regexp.MustCompile(`"metrics":\{[^}]*\}`)
+	reStartTime = regexp.MustCompile(`"startTime":"[^"]*"`)
+)
+
+// normalizeVolatile removes the process-global counters and the wall-clock start time from an
+// rpc.serverInfo result, so that logs are a deterministic function of the schedule
+// (Pipe.Out keeps the raw bytes).
+func normalizeVolatile(s string) string {
+	if !strings.Contains(s, `"startTime"`) && !strings.Contains(s, `"metrics"`) {
+		return s
+	}
+	s = reMetrics.ReplaceAllString(s, `"metrics":{}`)
+	return reStartTime.ReplaceAllString(s, `"startTime":"T"`)
 }
 
 // ---------------------------------------------------------------------------
